@@ -3,6 +3,7 @@ package main
 import (
 	"context"
 	"fmt"
+	"strings"
 	"time"
 )
 
@@ -11,9 +12,9 @@ import (
 // healthy: ping interval below half the timeout on the client; the server pings at srvPing (0 = never, relies on
 // answering pongs). A call several timeouts long, an idle gap of several timeouts, a subscription: nothing may drop.
 func scenKeepHealthy(ping, timeout, srvPing time.Duration) *connRun {
-	e := newConnEnv(connOpts{ping: ping, timeout: timeout, srvPing: srvPing})
+	e := newConnEnv(connOpts{ping: ping, timeout: timeout, srvPing: srvPing, timeoutFirst: keepTimeoutFirst})
 	params := map[string]interface{}{"ping_ms": ping.Milliseconds(), "timeout_ms": timeout.Milliseconds(), "srv_ping_ms": srvPing.Milliseconds(), "kind": "healthy",
-		"after_redial": keepAfterRedial}
+		"after_redial": keepAfterRedial, "timeout_option_first": keepTimeoutFirst}
 	expectAccepts := 1
 	if keepAfterRedial {
 		// the link under test is one the client obtained by redialling: keepalive must work there as on the first one
@@ -35,6 +36,9 @@ func scenKeepHealthy(ping, timeout, srvPing time.Duration) *connRun {
 	e.waitEv(2*time.Second, func(ev tev) bool { return ev.Point == "call.return" && fmt.Sprint(ev.Args[0]) == fmt.Sprint(after) })
 	r := e.finish("keepalive", params)
 	if r.Oracle == "" {
+		r.Oracle = armedOracle(r, timeout)
+	}
+	if r.Oracle == "" {
 		if r.Accepts != expectAccepts {
 			r.Oracle = fmt.Sprintf("a healthy link (ping %v < timeout/2 = %v, server ping %v, after a redial: %v) was dropped and re-dialled %d time(s)", ping, timeout/2, srvPing, keepAfterRedial, r.Accepts-expectAccepts)
 		}
@@ -50,12 +54,28 @@ func scenKeepHealthy(ping, timeout, srvPing time.Duration) *connRun {
 // set around a scenKeepHealthy call: first force one reconnect, then test the redialled link
 var keepAfterRedial bool
 
+// set around a keepalive scenario: the client lists WithTimeout before WithPingInterval
+var keepTimeoutFirst bool
+
+// the client connection arms its read deadline with the configured timeout, whatever the order of the options
+func armedOracle(r *connRun, timeout time.Duration) string {
+	for _, ev := range r.Events {
+		if ev.Point == "deadline.reset" && strings.HasPrefix(ev.Conn, "ws-client#") && len(ev.Args) > 0 {
+			if fmt.Sprint(ev.Args[0]) != fmt.Sprint(int64(timeout)) {
+				return fmt.Sprintf("the client arms its read deadline with %v ns although the configured timeout is %v (ping interval below half of it)", ev.Args[0], timeout)
+			}
+		}
+	}
+	return ""
+}
+
 // silent: the peer falls silent (blackhole, no close) at a given point; the client must notice within a bound given by
 // its timeout, fail the pending call with the connection error and start reconnecting.
 // when: "fresh" (right after the handshake, before any pong), "settled" (after traffic), "during-call"
 func scenKeepSilent(ping, timeout time.Duration, when string, steadyCalls bool) *connRun {
-	e := newConnEnv(connOpts{ping: ping, timeout: timeout, srvPing: 0, errors: true})
-	params := map[string]interface{}{"ping_ms": ping.Milliseconds(), "timeout_ms": timeout.Milliseconds(), "kind": "silent", "when": when, "steady_calls": steadyCalls, "heals": true}
+	e := newConnEnv(connOpts{ping: ping, timeout: timeout, srvPing: 0, errors: true, timeoutFirst: keepTimeoutFirst})
+	params := map[string]interface{}{"ping_ms": ping.Milliseconds(), "timeout_ms": timeout.Milliseconds(), "kind": "silent", "when": when, "steady_calls": steadyCalls, "heals": true,
+		"timeout_option_first": keepTimeoutFirst}
 	switch when {
 	case "settled":
 		w := e.call("echo", context.Background())
@@ -119,7 +139,7 @@ func scenKeepSilent(ping, timeout time.Duration, when string, steadyCalls bool) 
 		case !redial:
 			r.Oracle = fmt.Sprintf("silent peer (%s): the client did not start reconnecting", when)
 		default:
-			r.Oracle = ""
+			r.Oracle = armedOracle(r, timeout)
 		}
 	}
 	return r
@@ -142,6 +162,12 @@ func init() {
 			emit(scenKeepHealthy(20*time.Millisecond, 100*time.Millisecond, 0))
 			emit(scenKeepHealthy(30*time.Millisecond, 200*time.Millisecond, 5*time.Second))
 			keepAfterRedial = false
+			// the same with the options listed the other way round
+			keepTimeoutFirst = true
+			emit(scenKeepHealthy(40*time.Millisecond, 100*time.Millisecond, 0))
+			emit(scenKeepSilent(50*time.Millisecond, 300*time.Millisecond, "settled", false))
+			emit(scenKeepSilent(20*time.Millisecond, 100*time.Millisecond, "during-call", true))
+			keepTimeoutFirst = false
 			for _, when := range []string{"fresh", "settled", "during-call"} {
 				emit(scenKeepSilent(20*time.Millisecond, 100*time.Millisecond, when, false))
 				emit(scenKeepSilent(25*time.Millisecond, 120*time.Millisecond, when, true))
